@@ -19,7 +19,7 @@ from vlib.oracles import model as M
 from vlib.report import unjson_array
 
 ID = "C02"
-TECHNIQUE = "runtime monitoring: transition vectors of the compiled gibbs_options/mh_options observed for every ordered state and position; exact full-conditional / detailed-balance oracle; compound_step state+llk monitor; sampler-vs-exact frequency cross-check"
+TECHNIQUE = "runtime monitoring: transition vectors of the compiled gibbs_options/mh_options observed for every ordered state and position; exact full-conditional / detailed-balance oracle; compound_step state+llk monitor; sampler-vs-exact frequency cross-check; exact compound-step kernel (all scan orders x choice sequences); program level: CallingMCMC wrapped where mchap call constructs it, exact posterior of its arguments vs the GP vector printed by mchap call-exact on the same inputs; one model object re-fitted on other reads vs a fresh object"
 LEVEL = "exploration"
 LEVEL_TEXT = (
     "Exploration: on generated instances (ploidy 2-4, 2-6 known haplotypes over 1-5 sites, prior frequencies "
@@ -34,6 +34,7 @@ RULE = (
     "case = one (instance, ordered state, allele position, step type) transition vector or one compound-step observation; "
     "non-trivial = F>0 or non-flat frequencies or repeated allele in the state; distinct by hash of (instance, state, position, type)"
 )
+LEVEL_TEXT += ' Also observed: the exact compound-step kernel (pi P = pi); at program level, for generated BAM datasets (mixed ploidy, per-sample inbreeding files, zero and very small prior frequencies) the exact posterior of the arguments mchap call hands to its sampler equals the GP vector mchap call-exact prints (to its 3 decimals); the second fit of one CallingMCMC object on other reads is bit-identical to a fresh object.'
 ASSUMPTIONS = ["states whose posterior mass is zero (contain a zero-frequency allele) are unreachable and skipped"]
 TOL = 1e-9
 
